@@ -120,6 +120,7 @@ type Engine struct {
 	curPos     token.Pos
 	armBase    int
 	b64enc     map[string]bool
+	mapKeyFn   map[int]string
 	loopOrd    map[ast.Stmt]int
 	rangeAlias map[types.Object]string // range key var -> hidden index term (for invariants)
 	unsupported []string
